@@ -101,6 +101,34 @@ func concPipeline(in interface{}, c codec) string {
 	return hx(buf.Bytes()) + "=>" + js.String()
 }
 
+// a LONG-LIVED Unfolder per goroutine, Reset and given a new target for every document (state that
+// Reset re-installs from a shared template would be common to all of them): nested arrays into
+// interface{} targets, fed in chunks with a scheduling point between the chunks
+func concReuseDoc(g int) []byte {
+	return []byte(fmt.Sprintf(`{"a":[%d,[%d,[%d,"x%d"]],"s%d"],"b":[[%d],[[%d]]],"c":{"d":[%d,%d]}}`, g, g+1, g+2, g, g, g+3, g+4, g+5, g+6))
+}
+
+func concReusePipeline(g int, u *gotype.Unfolder, yield func()) string {
+	var out interface{}
+	u.Reset()
+	if err := u.SetTarget(&out); err != nil {
+		return "err:settarget"
+	}
+	p := json.NewParser(u)
+	doc := concReuseDoc(g)
+	for i := 0; i < len(doc); i += 3 {
+		end := i + 3
+		if end > len(doc) {
+			end = len(doc)
+		}
+		if _, err := p.Write(doc[i:end]); err != nil {
+			return "err:parse:" + err.Error()
+		}
+		yield()
+	}
+	return fmt.Sprintf("%v", out)
+}
+
 // conc <goroutines> <rounds>
 //
 //	-> equal | differ:<goroutine>:<index>
@@ -127,6 +155,11 @@ func opConc(args []string) string {
 			return "differ:sequential-stream-pipeline"
 		}
 	}
+	reuseSeq := make([]string, n)
+	for g := 0; g < n; g++ {
+		u, _ := gotype.NewUnfolder(nil)
+		reuseSeq[g] = concReusePipeline(g, u, func() {})
+	}
 	res := make([]string, n)
 	var wg sync.WaitGroup
 	for g := 0; g < n; g++ {
@@ -138,7 +171,12 @@ func opConc(args []string) string {
 					res[g] = fmt.Sprintf("panic:%d", g)
 				}
 			}()
+			own, _ := gotype.NewUnfolder(nil)
 			for round := 0; round < rounds; round++ {
+				if got, want := concReusePipeline(g, own, runtime.Gosched), reuseSeq[g]; got != want {
+					res[g] = fmt.Sprintf("differ:%d:reused-unfolder", g)
+					return
+				}
 				// instances built from shared option values, documents in chunks with a
 				// scheduling point between the chunks
 				if got, want := concUserPipeline(cuInput(g), runtime.Gosched), userSeq[g]; got != want {
